@@ -2,11 +2,11 @@ SPECIFICATION Spec
 CONSTANTS
     N = 4
     K = 1
-    NanIsError = FALSE
+    Variant = "strict"
 INVARIANT PivotsAreMinorRatios
 INVARIANT FactorsExact
 INVARIANT SpdAccepted
 INVARIANT ErrorClause
+INVARIANT OkIsFinite
 INVARIANT DefectExtent
-INVARIANT Replay
 CHECK_DEADLOCK FALSE
